@@ -299,6 +299,10 @@ func cmdCheck(args []string) int {
 		fmt.Fprintln(os.Stderr, "--property required")
 		return 2
 	}
+	if _, isBounded := boundedPlans[*prop]; isBounded {
+		// no functional contract on the block codecs: a bounded stand-in (labelled so in the evidence)
+		return cmdBounded([]string{"--property", *prop, "--tier", *tier})
+	}
 	t0 := time.Now()
 	vd := verifDir()
 	seed := envInt("VERIF_SEED", 0)
